@@ -1284,15 +1284,34 @@ def scen_C11(ctx):
         keys = {}
         hid = [0]
         dbn = [0]
+        # some maps are opened for the first time only later, through whichever database handle (original or clone) exists by then,
+        # and then looked up through the others: all database handles of a directory must share one registry of open maps
+        late = set(m for m in range(nm) if i % 2 and r.random() < 0.5)
         for m in range(nm):
+            keys[m] = g.key_universe(kts[m], r.choice([3, 8]))
+            handles[m] = []
+            if m in late:
+                continue
             lines.append('map h%d d0 %s %s %s' % (hid[0], kts[m], names[m], g.params(n=r.choice([1, 4, 16, 64]), bufs=False)))
             handles[m] = ['h%d' % hid[0]]
             hid[0] += 1
-            keys[m] = g.key_universe(kts[m], r.choice([3, 8]))
         dbs = ['d0']
+        if late:
+            lines.append('dbclone d1 d0'); dbs.append('d1'); dbn[0] = 1
         for _ in range(ctx.scale(120, 500)):
             m = r.randrange(nm)
             c = r.random()
+            if not handles[m]:
+                # first open of this name, through a random database handle; then immediately a lookup through another one
+                first = r.choice(dbs)
+                hid[0] += 1
+                lines.append('map h%d %s %s %s %s' % (hid[0], first, kts[m], names[m], g.params(n=r.choice([1, 4, 16]), bufs=False)))
+                handles[m].append('h%d' % hid[0])
+                other = r.choice([d for d in dbs if d != first] or dbs)
+                hid[0] += 1
+                lines.append('map h%d %s %s %s default' % (hid[0], other, kts[m], names[m]))
+                handles[m].append('h%d' % hid[0])
+                continue
             if c < 0.05:
                 hid[0] += 1
                 lines.append('mapclone h%d %s' % (hid[0], r.choice(handles[m])))
@@ -1309,11 +1328,13 @@ def scen_C11(ctx):
                 h = handles[m].pop(r.randrange(len(handles[m])))
                 lines.append('drop %s' % h)
             elif c < 0.22:
-                lines += ['flush %s' % r.choice(handles[mm]) for mm in range(nm)] + ['snap db']
+                lines += ['flush %s' % r.choice(handles[mm]) for mm in range(nm) if handles[mm]] + ['snap db']
             else:
                 h = r.choice(handles[m])
                 lines += g.hist(kts[m], 1, keys=keys[m], mid=h, big=0.01)
         for m in range(nm):
+            if not handles[m]:
+                continue
             h = r.choice(handles[m])
             lines += ['len %s' % h, 'iter %s iter' % h]
         lines += ['closeall', 'snap db']
